@@ -675,6 +675,12 @@ func (c *bodyCtx) walk(stmts []ast.Stmt, joinTarget string) {
 			if s.Init == nil && i > 0 {
 				prevStmt = stmts[i-1]
 			}
+			// "if ok { A } else { B }" is read as "if !ok { B } else { A }"
+			if id, isID := s.Cond.(*ast.Ident); isID {
+				if eb, isBlk := s.Else.(*ast.BlockStmt); isBlk {
+					s = &ast.IfStmt{If: s.If, Init: s.Init, Cond: &ast.UnaryExpr{OpPos: id.Pos(), Op: token.NOT, X: id}, Body: eb, Else: s.Body}
+				}
+			}
 			if target, ok := c.joinIfAfter(s, prevStmt); ok {
 				initStmt := s.Init
 				if initStmt == nil {
@@ -904,7 +910,7 @@ func (c *bodyCtx) nested(s ast.Stmt, body *ast.BlockStmt, x ast.Expr, key, val a
 	}
 	save := c.l.Effects
 	c.l.Effects = nil
-	c.walk(body.List, "")
+	c.walk(desugarContinue(body.List), "")
 	inner := c.l.Effects
 	c.l.Effects = save
 	if len(inner) > 0 {
@@ -1471,4 +1477,29 @@ func (a *Analyzer) joinHelperCallAST(info *types.Info, call *ast.CallExpr) (ast.
 		return nil, false
 	}
 	return call.Args[0], true
+}
+
+// desugarContinue rewrites, in the statement list of a loop body, "if c { A; continue }; REST" into
+// "if c { A } else { REST }" (the two are the same program); the classifier's idioms are stated on the if/else form.
+func desugarContinue(stmts []ast.Stmt) []ast.Stmt {
+	for i, st := range stmts {
+		s, ok := st.(*ast.IfStmt)
+		if !ok || s.Else != nil || len(s.Body.List) == 0 {
+			continue
+		}
+		br, ok := s.Body.List[len(s.Body.List)-1].(*ast.BranchStmt)
+		if !ok || br.Tok != token.CONTINUE || br.Label != nil {
+			continue
+		}
+		rest := desugarContinue(stmts[i+1:])
+		if len(rest) == 0 {
+			continue
+		}
+		out := append([]ast.Stmt{}, stmts[:i]...)
+		out = append(out, &ast.IfStmt{If: s.If, Init: s.Init, Cond: s.Cond,
+			Body: &ast.BlockStmt{Lbrace: s.Body.Lbrace, List: s.Body.List[:len(s.Body.List)-1], Rbrace: s.Body.Rbrace},
+			Else: &ast.BlockStmt{Lbrace: rest[0].Pos(), List: rest, Rbrace: rest[len(rest)-1].End()}})
+		return out
+	}
+	return stmts
 }
